@@ -275,6 +275,9 @@ func (c *Ctx) heirOf(pkg, name string) *ssa.Function {
 			}
 		}
 	}
+	if len(alive) == 0 && len(callers) == 1 {
+		return c.heirChain(callers[0], 0) // the single caller was folded away too: follow the chain
+	}
 	if len(alive) != 1 {
 		return nil
 	}
@@ -810,5 +813,31 @@ func (c *Ctx) heirByFnName(fnName string) *ssa.Function {
 			return fn
 		}
 	}
+	// the one caller is gone as well (a chain of small helpers folded into the function at its end)
+	if callers[0] != fnName {
+		return c.heirChain(callers[0], 0)
+	}
 	return nil
+}
+
+func (c *Ctx) heirChain(fnName string, depth int) *ssa.Function {
+	if depth > 3 {
+		return nil
+	}
+	var callers []string
+	for _, l := range strings.Split(knownEdgesTxt, "\n") {
+		f := strings.Split(strings.TrimSpace(l), "\t")
+		if len(f) == 2 && f[0] == fnName && f[1] != fnName {
+			callers = append(callers, f[1])
+		}
+	}
+	if len(callers) != 1 {
+		return nil
+	}
+	for _, fn := range c.modFuncs {
+		if FnName(fn) == callers[0] {
+			return fn
+		}
+	}
+	return c.heirChain(callers[0], depth+1)
 }
